@@ -91,15 +91,7 @@ def construct(ctx, f, cfg):
         sl = Slicer(f, sw)
         okd = False
         aggs = [bi for bi, blk in enumerate(sw.blocks) for s in blk["stmts"] if s["k"] == "assign" and s["rv"]["k"] == "agg" and s["rv"].get("adt") == SWM]
-        for ab in aggs:
-            for d in sw.dominators().get(ab, ()):
-                t = sw.term(d)
-                if t and t["k"] == "switch":
-                    a = sl.of_operand(t["op"])
-                    if "discr" in a and any_atom(a, "call:check_validity_for_reuse_statistic") and any_atom(a, "call:Try::branch"):
-                        cont = [tg for v, tg in t["targets"] if v == 0]
-                        if cont and sw.dominates(cont[0], ab):
-                            okd = True
+        okd = bool(aggs) and all(ok_edge_dominates(f, sw, ab, "call:check_validity_for_reuse_statistic", sl=sl) for ab in aggs)
         roles = []
         for bb, t in sw.calls():
             if callee_is(t, "check_validity_for_reuse_statistic"):
@@ -417,9 +409,15 @@ def expiry(ctx, f, cfg):
         sl = Slicer(f, b)
         cls = make_classifier([("iter", ["call:Iterator::next"], [])])
 
+        upmap = {}
+
         def oname(t, atoms, filt=filt):
             n = callee_def(t).rsplit("::", 1)[-1]
             if n == filt:
+                # values captured by a predicate closure keep the origin they have in the enclosing method
+                for a_ in list(atoms):
+                    if a_.startswith("field:upvar."):
+                        atoms = atoms | upmap.get(a_[len("field:upvar."):], set())
                 own = any_atom(atoms, "field:LeapArray.interval_ms") or any_atom(atoms, "field:LeapArray.bucket_len_ms")
                 return filt if own else filt + "(foreign interval)"
             if "indirect" in t["callee"] or n in ("call",):
@@ -433,17 +431,43 @@ def expiry(ctx, f, cfg):
                 if s["k"] == "assign" and s["lhs"]["l"] == 0 and not s["lhs"]["p"] and s["rv"]["k"] == "agg" and s["rv"].get("variant") == "Ok":
                     oks.add(bi)
         its = [bb for bb, t in b.calls() if callee_is(t, "Iterator::next")]
-        if its:
+        chain = None
+        if not pushes and not its:
+            # iterator-chain form: self.array.iter().filter(<predicate>).cloned().collect(): the buckets handed out are those for which
+            # the predicate closure returns true; the predicate is judged like the loop body of the explicit form
+            rb = f.raw(b)
+            for bb, t in rb.calls():
+                if callee_def(t).endswith(("Iterator::filter", "iter::Iterator::filter")) and any_atom(Slicer(f, rb).of_operand(t["args"][0]), "field:LeapArray.array"):
+                    for ds in t.get("arg_defs") or []:
+                        for d in ds:
+                            if d in f.bodies and f.bodies[d].kind == "Closure":
+                                chain = f.view(f.bodies[d])
+                                rsl = Slicer(f, rb)
+                                for blk_ in rb.blocks:
+                                    for s_ in blk_["stmts"]:
+                                        if s_["k"] == "assign" and s_["rv"]["k"] == "agg" and s_["rv"].get("closure") == d:
+                                            for nm_, o_ in zip(s_["rv"].get("fields", []), s_["rv"]["ops"]):
+                                                upmap[nm_] = rsl.of_operand(o_)
+            ret_a = Slicer(f, b).of_local(0)
+            if chain is not None and not (any(x.endswith("Iterator::filter") for x in ret_a if x.startswith("call:")) and any_atom(ret_a, "field:LeapArray.array")):
+                chain = None
+        if chain is not None:
+            w = D.Walker(f, chain, cls, opaque_name=oname)
+            paths = [p_ for p_ in w.walk(0, lambda bb, env: None) if p_["outcome"][0] == "return"]
+        elif its:
             start = b.term(its[0])["target"]
             paths = w.walk(start, lambda bb, env: ("iteration-done",) if bb == its[0] else None)
         else:
             paths = w.walk(0, lambda bb, env: None)
 
         def outcome(p, asg):
+            if chain is not None:
+                v = p["env"].get("_0")
+                return "unknown" if v is None else ("handed-out" if D.ev(v, asg) else "withheld")
             return "handed-out" if any(x in pushes or x in oks for x in p["blocks"]) else "withheld"
 
         def expected(asg, filt=filt, negated=negated, name=name):
-            if its and asg["disc"].get("iter") != 1:
+            if its and chain is None and asg["disc"].get("iter") != 1:
                 return None
             v = asg["opaque"].get(filt)
             if v is None:
@@ -480,8 +504,21 @@ def gateway(ctx, f, cfg):
     sat = sats[0]
     # predicate closure: start <= curr && curr <= end
     clos = f.closures_of(f.raw(sat))
+    # which captured value is the start and which the end of the range: by data flow in the parent (the start is the one computed
+    # from the window length), never by the capture's name
+    sl0 = Slicer(f, sat)
+    up_start = up_end = None
+    for blk in sat.blocks:
+        for s_ in blk["stmts"]:
+            if s_["k"] == "assign" and s_["rv"]["k"] == "agg" and s_["rv"].get("closure") and len(s_["rv"].get("fields", [])) == 2:
+                for nm, o in zip(s_["rv"]["fields"], s_["rv"]["ops"]):
+                    if any_atom(sl0.of_operand(o), "field:SlidingWindowMetric.interval_ms"):
+                        up_start = nm
+                    else:
+                        up_end = nm
     if clos:
         c = clos[0]
+        pcur = c.param_name(2) or "curr"
 
         def exp(asg):
             r1 = D.rel_of(asg, "curr", "start")
@@ -489,7 +526,7 @@ def gateway(ctx, f, cfg):
             if r1 is None or r2 is None:
                 return None
             return "true" if (r1 in ">=" and r2 in "<=") else "false"
-        _bool_fn_table(ctx, f, c, "C02.window-gateway/predicate", [("start", ["field:upvar.start"], []), ("end", ["field:upvar.end"], []), ("curr", ["param:curr"], [])],
+        _bool_fn_table(ctx, f, c, "C02.window-gateway/predicate", [("start", ["field:upvar.%s" % (up_start or "start")], []), ("end", ["field:upvar.%s" % (up_end or "end")], []), ("curr", ["param:" + pcur], [])],
                        exp, "start <= stamp && stamp <= end", cfg, 9)
     sl = Slicer(f, sat)
     ok = False
